@@ -4,6 +4,7 @@ package main
 import (
 	"fmt"
 	"strings"
+	"time"
 
 	"github.com/theparanoids/crypki/proto"
 	"golang.org/x/crypto/ssh"
@@ -185,7 +186,7 @@ func param() *csr.ReqParam {
 }
 
 func main() {
-	ev.Main("C04", "fault_enumeration", func(r *ev.Run) {
+	ev.MainIsolated("C04", "fault_enumeration", 40*time.Minute, func(r *ev.Run) {
 		r.Rule("for every run shape within the bound (the real regular handler with the CA returning 1..3 certificates; stub handlers returning 1..K agent keys with 1..C CSRs each and 1..3 certificates per CSR, delivery through the real agent/ssh AgentKey) a fault-free pilot run counts the agent requests N and signer calls S; then ONE run per (request index i < N) x {failure reply, garbage reply, wrong-type reply, oversized frame, truncated frame, connection closed} and per (signer call j < S) x {error, panic}, plus a panic in each Handler method (Name, Authenticate, Generate) and in each AgentKey method (CSRs, AddCertsToAgent), an empty Generate result and a failing Generate. Oracle: the error kind must match the stage in which the pilot performed that operation (auth -> all-authentications-failed; generation -> CSR-generation / configuration / invalid-params; signer -> signer; delivery -> agent; panic -> panic); nil only if every CSR was signed and every returned certificate is in the agent; no certificate-bearing add frame for a key one of whose CSRs was not signed; no panic escapes Run. distinct_nontrivial = distinct (shape, fault kind, index) runs judged. exhaustive within the bound")
 		r.Assume("single faults only", "a wrong-type reply may surface as the stage's kind or as the panic kind (the agent client library panics on it and Run recovers)")
 		r.Exhaustive(true)
